@@ -1234,6 +1234,19 @@ func genPull(r *vcoq.Rand, trait string) TSpec {
 		n = r.Range(5, 6)
 	}
 	strategy := []int{0, 1, 1, 1, 2, 3, 3, 5, 6, 7}[r.Intn(10)]
+	if r.Chance(12) {
+		// ExecuteOne: the members' streams are opened one after the other; events aimed at a member that is
+		// not the running one are never delivered (issue's non-blocking send), so most events follow [cur]
+		strategy = 4
+	}
+	cur := 0
+	pick := func() int {
+		i := r.Intn(n)
+		if strategy == 4 && cur < n && !r.Chance(12) {
+			i = cur
+		}
+		return i
+	}
 	sp := TSpec{Kind: "pull", Trait: trait, Strategy: strategy, Other: otherStrategy(r, strategy),
 		Outs: make([]int, n), Aware: make([]bool, n), Eofs: make([]bool, n), OpenFail: make([]bool, n)}
 	for i := 0; i < n; i++ {
@@ -1261,13 +1274,16 @@ func genPull(r *vcoq.Rand, trait string) TSpec {
 		case c < 4:
 			sp.Events = append(sp.Events, TEvent{Kind: "parent"})
 		case c < 22 && n > 0:
-			i := r.Intn(n)
+			i := pick()
+			if i == cur {
+				cur++
+			}
 			ended[i] = true
 			sp.Events = append(sp.Events, TEvent{Kind: "end", I: i})
 		case n > 0:
-			i := r.Intn(n)
+			i := pick()
 			if ended[i] && r.Chance(80) {
-				i = r.Intn(n)
+				i = pick()
 			}
 			nch := []int{0, 1, 1, 1, 1, 2, 3}[r.Intn(7)]
 			ev := TEvent{Kind: "msg", I: i}
